@@ -162,9 +162,16 @@ CLAIMED = {
         text="Lean 4 theorems about the extrapolated sweep spec: nodes of the next coarser grid keep their value, all other nodes satisfy their "
              "sweep equation, the exact solution is a fixed point, the residual vanishes on the fine-only nodes of the last colour, relaxed "
              "nodes of an even line are exactly its odd positions.  Tie: real ExtrapolatedSmootherGive / Take outputs; coarse nodes compared "
-             "bit for bit with the input.",
-        design_ref="DESIGN.md section 4, C07", note="spec-level model; bitwise invariance is an observation on the implementation.",
-        technique="Lean 4 proof about the relaxation spec + defect / bitwise check of the implementation's output"),
+             "bit for bit with the input.  CODE LEVEL (C07c): GMGModel/ExSmootherCode.lean models ExtrapolatedSmootherTake (tridiagonal systems "
+             "on odd circles / odd radial lines, DiagonalSolver systems on the lines through coarse nodes with literal 1.0 rows at the "
+             "coarse nodes, the innermost circle's CSR matrix, every branch of temp = rhs - A_sc^ortho x, the sweep in code order); theorems: "
+             "row-splitting identities per node class, the stored arrays represent those rows, code_exsweep_isExSweep (the modelled "
+             "extrapolatedSmoothing() satisfies every equation of the extrapolated spec; needs nr odd — nr_odd_needed is a machine-checked "
+             "counterexample for even nr, which C18.levels_admissible excludes on smoothed levels), code_exsweep_coarse_fixed (coarse nodes "
+             "are returned EXACTLY, any field), code_exsweep_last_colour; tie: all stored entries and temp values of the real take class "
+             "bit-identical to the model in double, sweep results bit-identical, coarse nodes bit-identical to the input.",
+        design_ref="DESIGN.md section 4, C07 and R.9", note="the give variant's scatter assembly is tied to the take model's matrices within the allowance and through the sweep equations.",
+        technique="Lean 4 proof (code-level model refines the relaxation spec) + bitwise correspondence of stored matrices, right-hand sides and sweeps"),
     "C02": dict(
         category="proof",
         text="PARTIAL.  Proved: the load scaling of discretize_rhs_f is the mass-term scaling of the stencil (constants with f = beta*c are "
